@@ -7,7 +7,7 @@
     decided by evaluation in the kernel. *)
 From Coq Require Import ZArith List String.
 Import ListNotations.
-From FGV Require Import Base.Util Base.Bond Base.NX Base.NXMulti Model.Proxy Model.Its Model.ProxyGen
+From FGV Require Import Base.Util Base.Bond Base.NX Base.NXMulti Model.Proxy Model.Its Model.ProxyGen Model.ProxyDict Model.ProxyTree
   Spec.ProxySpec Spec.ProxyGenSpec Spec.ProxyGenCheck Spec.ProxyParserCheck Spec.ItsSpec Spec.ReactionSpec Gen.ProxyDA
   Proofs.ReactionProofs Proofs.ProxyDAAll Proofs.ProxyGenTop Proofs.ReactionCheckProofs.
 Open Scope string_scope.
